@@ -48,6 +48,13 @@ type config []script
 // name gives script i of a set of n its name. Sets of even size use names that contain one another (lib.p,
 // my-lib.p, x-my-lib.p, ...; the missing script's name is a suffix of all of them): name handling must compare whole names.
 func name(i, n int) string {
+	if n == 2 || n == 7 {
+		// names with characters that mean something to a formatter
+		if i >= n {
+			return "miss%s.p"
+		}
+		return []string{"cpu%.p", "100%done.p", "load%d.p", "%v.p", "a%%b.p", "x%!.p", "{}.p"}[i%7]
+	}
 	if n == 3 || n == 5 {
 		// names with directories and equal base names
 		if i >= n {
@@ -352,6 +359,12 @@ func loadAndCheck(t rk.Failer, slot string, cfg config, texts []string, offs [][
 			if !okForm {
 				rk.Fail(t, slot, rp, "error of %s (cycle): chain %s, want [one of the call sites of the offending chain] followed by the call sites %s [order %v] (script %s)", nm, fmtChain(chain), fmtSites(p.Tail), ord, nm)
 			}
+			if msg := impl.PlErr(e).Err; strings.Contains(msg, "%!") || strings.Contains(msg, "(MISSING)") || strings.Contains(msg, "(EXTRA") {
+				rk.Fail(t, slot, rp, "error text of %s is mangled by a formatter: %q", nm, msg)
+			}
+			if msg := impl.PlErr(e).Err; !strings.Contains(msg, nm) {
+				rk.Fail(t, slot, rp, "the circular-dependency error of %s does not name it: %q", nm, msg)
+			}
 			if !strings.Contains(impl.PlErr(e).Err, "circular") {
 				rk.Fail(t, slot, rp, "error of %s should report a circular dependency, got %q", nm, impl.PlErr(e).Err)
 			}
@@ -645,6 +658,34 @@ func TestRelink(t *testing.T) {
 		}
 		if got := fmt.Sprint(run(ok1[nm(0)])); got != want(vers) {
 			rk.Fail(t, "relink", texts, "first load: root left %s, want %s", got, want(vers))
+		}
+		// checking an accepted, linked script again (the exported Check) changes nothing: it is still accepted and
+		// its use calls are still bound
+		if rapid.Bool().Draw(t, "recheck") {
+			k := rapid.IntRange(0, n-1).Draw(t, "rechecked")
+			var cerr error
+			func() {
+				defer func() {
+					if r := recover(); r != nil {
+						cerr = fmt.Errorf("panic: %v", r)
+					}
+				}()
+				if e := ok1[nm(k)].Check(check); e != nil {
+					cerr = e
+				}
+			}()
+			if cerr != nil {
+				rk.Fail(t, "relink", texts, "Check on the accepted script %s fails: %v", nm(k), cerr)
+			}
+			for ci, ce := range ok1[nm(k)].CallRef {
+				if b, _ := ce.PrivateData.(*plrt.Script); b == nil || b != ok1[b.Name] {
+					rk.Fail(t, "relink", texts, "after Check on the linked script %s its use call %d is no longer bound to the script of that name", nm(k), ci)
+				}
+			}
+			if got := fmt.Sprint(run(ok1[nm(0)])); got != want(vers) {
+				rk.Fail(t, "relink", texts, "after Check on the linked script %s: the root left %s, want %s", nm(k), got, want(vers))
+			}
+			evid.Label("relink/check-again-on-linked-script")
 		}
 		set := map[string]*plrt.Script{}
 		for k, v := range ok1 {
